@@ -25,6 +25,15 @@ static MASK: AtomicU32 = AtomicU32::new(0);
 static COUNT_MASK: AtomicU32 = AtomicU32::new(0);
 static COUNTED: AtomicU64 = AtomicU64::new(0);
 static FIRED: AtomicU64 = AtomicU64::new(0);
+static LAST_CB: AtomicU32 = AtomicU32::new(0);
+/// Print a `FUSE cb=<kind>` line to stderr when the fuse fires (lets a supervising process
+/// attribute a later crash).
+pub static VERBOSE: AtomicU32 = AtomicU32::new(0);
+
+/// Kind of the callback in which the fuse fired last.
+pub fn last_fired_cb() -> &'static str {
+    CB_NAMES[(LAST_CB.load(Ordering::SeqCst) as usize) % NCB]
+}
 
 pub struct FusePanic(pub Cb);
 
@@ -63,7 +72,11 @@ pub fn hit(cb: Cb) {
         let prev = FUSE.fetch_sub(1, Ordering::SeqCst);
         if prev == 1 {
             FIRED.fetch_add(1, Ordering::SeqCst);
+            LAST_CB.store(cb as u32, Ordering::SeqCst);
             MASK.store(0, Ordering::SeqCst);
+            if VERBOSE.load(Ordering::Relaxed) != 0 {
+                eprintln!("FUSE cb={}", CB_NAMES[cb as usize]);
+            }
             if !std::thread::panicking() {
                 std::panic::panic_any(FusePanic(cb));
             }
